@@ -41,6 +41,16 @@ def convergence_case(args):
         la = {"PLoad": {"pwr": rnd.choice([0.5, 5.0, 50.0])}, "ILoad": {"ii": rnd.choice([0.1, 1.0, 10.0])}, "RLoad": {"rs": rnd.choice([1.0, 10.0])}}[lk]
         ops.append({"op": "add_comp", "parent": chain, "comp": {"kind": lk, "name": "L", "args": la}})
         recipe = {"ops": ops}
+    elif rnd.random() < 0.25:
+        # wide dynamic range: a high-voltage / high-current bus next to a milliwatt rail that needs several sweeps to settle
+        # (convergence is judged element by element: the small rail must be converged to the requested tolerance too)
+        hv = rnd.choice([200.0, 400.0, 48.0])
+        ops = [{"op": "system", "comp": {"kind": "Source", "name": "S0", "args": {"vo": hv, "rs": 0.01}}},
+               {"op": "add_comp", "parent": "S0", "comp": {"kind": "RLoad", "name": "HEAT", "args": {"rs": hv / rnd.choice([20.0, 50.0])}}},
+               {"op": "add_comp", "parent": "S0", "comp": {"kind": "Converter", "name": "AUX", "args": {"vo": 3.3, "eff": 0.8}}},
+               {"op": "add_comp", "parent": "AUX", "comp": {"kind": "RLoss", "name": "FILT", "args": {"rs": rnd.choice([50.0, 120.0, 220.0])}}},
+               {"op": "add_comp", "parent": "FILT", "comp": {"kind": "PLoad", "name": "MCU", "args": {"pwr": rnd.choice([0.004, 0.008, 0.012])}}}]
+        recipe = {"ops": ops}; over = False
     else:
         recipe = gen.random_system(rnd, max_nodes=7, n_sources=(1, 2), p_mux=0.3, p_table=0.2, p_phases=0.3)
         if rnd.random() < 0.3:
@@ -512,6 +522,13 @@ def roundtrip_case(args):
                               {"op": "add_comp", "parent": "HV", "comp": {"kind": "Converter", "name": "DC", "args": {"vo": 800.0, "eff": 0.98}}, "group": "", "rail": ""},
                               {"op": "add_comp", "parent": "DC", "comp": {"kind": "PLoad", "name": "M", "args": {"pwr": rnd.choice([1.2e6, 2.5e6])}}, "group": "", "rail": ""},
                               {"op": "add_comp", "parent": "HV", "comp": {"kind": "RLoad", "name": "R", "args": {"rs": 1.0, "limits": {"ii": [0.0, 10.0]}}}, "group": "", "rail": ""}]}
+        if rnd.random() < 0.2:
+            # pico/nano-ampere parameters with many digits: the file keeps them exactly
+            for op in recipe["ops"]:
+                if "comp" not in op: continue
+                for k_ in ("iis", "iq", "ig", "pwrs"):
+                    v_ = op["comp"]["args"].get(k_)
+                    if isinstance(v_, float) and v_ != 0.0: op["comp"]["args"][k_] = v_ * 1.23456789e-6
         # limits with only a lower / only an upper bound, applicable and not
         for op in recipe["ops"]:
             if "comp" in op and rnd.random() < 0.3:
@@ -874,6 +891,9 @@ def toml_case(args):
     for k in list(a):
         if k not in MANDATORY[cls] and k not in keep and rnd.random() < 0.4: a.pop(k)
     doc = {TOML_SECTION[cls]: a}
+    if lim is not None and rnd.random() < 0.12:
+        # a malformed limits pair: loader and constructor must agree (both refuse it)
+        k_ = rnd.choice(list(lim)); lim = dict(lim); lim[k_] = rnd.choice([[0.0, 0.5, 1.0], ["0", "6"], [1.0]])        # (TOML arrays are homogeneous)
     if lim is not None: doc["limits"] = lim
     mode = rnd.choice(["ok", "ok", "ok", "missing", "wrongtype"])
     if mode == "missing" and MANDATORY[cls]:
@@ -926,6 +946,19 @@ def toml_case(args):
         if (e1 is None) != (e2 is None) or (e1 is not None and type(e1) != type(e2)):
             F("toml.accept", "%s: loader %s, constructor %s" % (cls, type(e1).__name__ if e1 else "ok", type(e2).__name__ if e2 else "ok")); return out
         if c1 is None: return out
+        if cls != "LinReg" and rnd.random() < 0.25:
+            # the same path is rewritten (one numeric parameter changed) and loaded again: the component follows the file
+            nk = [k_ for k_, v_ in doc[TOML_SECTION[cls]].items() if isinstance(v_, float) and k_ != "eff" and v_ != 0.0]
+            if nk:
+                d3 = copy.deepcopy(doc); k3 = rnd.choice(nk); d3[TOML_SECTION[cls]][k3] = d3[TOML_SECTION[cls]][k3] * 1.5
+                with open(p, "w") as f: toml.dump(d3, f)
+                try:
+                    c3 = K.from_file("X", fname=p)
+                    kw3 = dict(d3[TOML_SECTION[cls]]); 
+                    if lim is not None: kw3["limits"] = lim
+                    if c3._params != K("X", **copy.deepcopy(kw3))._params: F("toml.reload", "%s: the file was rewritten (%s changed) and loaded again from the same path: the component still has %r" % (cls, k3, c3._params.get(k3)))
+                except Exception as e:
+                    F("toml.reload", "%s: loading the rewritten file raised %s" % (cls, type(e).__name__))
         if c1._params != c2._params: F("toml.params", "%s: loader _params %s != constructor _params %s" % (cls, c1._params, c2._params))
         if c1._limits != c2._limits: F("toml.limits", "%s: loader limits %s != constructor limits %s" % (cls, c1._limits, c2._limits))
         # same params()/limits() row and same behaviour in a solved system
